@@ -34,7 +34,7 @@ func init() {
 func scalarOracle(l *harness.Live) (harness.Value, *harness.Failure) {
 	rv, err := xref.Eval(&xref.Env{Doc: l.Doc}, l.AST, l.Ctx)
 	if err != nil {
-		return harness.Value{}, harness.Failf("reference evaluates", err.Error(), "generator left the reference fragment")
+		return harness.Value{}, refFailure(err)
 	}
 	want := harness.FromRef(rv)
 	got, f := engineEval(l)
